@@ -719,3 +719,26 @@ Example client_hello_example :
                 (Some ([([1; 2; 3], 4294967295)], [repeat 5 32])) [(57, repeat 3 40); (0xFFA5, [])] in
   client_hello_wf m = true /\ exists bytes, enc_seq (tree_client_hello m) = Ok bytes /\ Zlen bytes = 282.
 Proof. split; [reflexivity|]. eexists. split; vm_compute; reflexivity. Qed.
+
+(* ---- every item function handed to pull_list consumes at least one byte (fuel independence applies) ---- *)
+Theorem tls_items_progress :
+  (forall w, (1 <= w)%nat -> item_progress (item_uint w)) /\ item_progress item_key_share /\
+  item_progress item_alpn /\ item_progress item_psk_identity /\
+  (forall cap, (1 <= cap)%nat -> item_progress (item_opaque cap)) /\ item_progress item_certificate_entry /\
+  item_progress (ext_item parse_client_hello_ext true) /\ item_progress (ext_item parse_server_hello_ext false) /\
+  item_progress (ext_item parse_nst_ext false) /\ item_progress (ext_item parse_ee_ext false) /\
+  item_progress (ext_item parse_cr_ext false).
+Proof.
+  repeat split.
+  - exact item_uint_progress.
+  - exact item_key_share_progress.
+  - exact item_alpn_progress.
+  - exact item_psk_identity_progress.
+  - exact item_opaque_progress.
+  - exact item_certificate_entry_progress.
+  - apply ext_item_progress, parse_client_hello_ext_mono.
+  - apply ext_item_progress, parse_server_hello_ext_mono.
+  - apply ext_item_progress, parse_nst_ext_mono.
+  - apply ext_item_progress, parse_ee_ext_mono.
+  - apply ext_item_progress, parse_cr_ext_mono.
+Qed.
